@@ -2263,7 +2263,7 @@ def _stage_sizes(ctx):
     """sizes at which an implementation could switch strategy (HISTORIES.md section 4): vocabularies and tag lists of
     15..17, 255..257, 1023..1025 and more elements, repeats beyond those lengths"""
     rng = ctx.rng
-    big = _big_pool(1300)
+    big = _big_pool(1400)
     sizes = [15, 16, 17, 255, 256, 257, 1023, 1024, 1025] + ([1300] if ctx.thorough() else [])
     enc_cases, tag_cases, pred_cases = [], [], []
     for n in sizes:
